@@ -1,6 +1,7 @@
 import PC.Proofs.SupArms
 import PC.Proofs.SupTail
 import PC.Spec.SupSpec
+import PC.Proofs.SupExitRule
 /-! C04 — project completion and exit code (supervisor model). -/
 namespace PC.Props.C04
 open PC.Sup
@@ -92,5 +93,29 @@ set_option maxRecDepth 4000 in
 example : (runTrace (init .coarse false two) victims).1.exitCode = 3 := by decide
 set_option maxRecDepth 4000 in
 example : ((runTrace (init .coarse false two) victims).2.filter (· == .runReturned 3)).length = 1 := by decide
+
+/-! ### the exit-code rule, globally -/
+
+/-- **Success unless a trigger occurred**: in every state the model passes through (every schedule,
+    every sequence of exits, probe results and requests), as long as no process has triggered the
+    shutdown the project exit code is 0 — what `Run()` reports when it returns then. -/
+theorem success_until_trigger (g : Gran) (o : Bool) (cfgs : List Cfg) {s : Sys}
+    (h : ReachF (init g o cfgs) s) (hn : s.exitCodeSet = false) : s.exitCode = 0 :=
+  reachF_exit_zero g o cfgs h hn
+
+/-- **The reported code is a trigger's own**: the step that decides the project exit code is a step
+    of a process goroutine whose process was skipped with `exit_on_skipped` (code 1) or ended with
+    `exit_on_failure` and a non-zero code or with `exit_on_end` (its own exit code) — never a step
+    of a process that was merely terminated by the shutdown without carrying such a setting, never a
+    request thread, a stopper or a waiter. -/
+theorem exit_code_is_a_triggers (s : Sys) (t : Tid) (h : Hints) (h0 : s.exitCodeSet = false)
+    (h1 : (stepThread s t h).exitCodeSet = true) :
+    ∃ i c, TriggerAt s t i c ∧ (stepThread s t h).exitCode = c :=
+  exit_set_only_by_trigger s t h h0 h1
+
+/-- no external event decides or changes the exit code -/
+theorem events_leave_exit_code (s : Sys) (c : Choice) (h : Hints) (hc : ∀ t, c ≠ .run t) :
+    (step s c h).exitCodeSet = s.exitCodeSet ∧ (step s c h).exitCode = s.exitCode :=
+  exit_not_set_by_events s c h hc
 
 end PC.Props.C04
